@@ -454,6 +454,19 @@ func (h *simHandler) URLFor(fctx frugal.FContext, id string, code int32) (string
 	}
 	return p.ret.(string), nil
 }
+func (h *simHandler) Shapes(fctx frugal.FContext, d simsvc.Deep, o *simsvc.Odd, pt simsvc.Paint, kind int16, span int8, ratio float64, iprot string, ctx string, bins [][]byte, labels map[simsvc.Paint]string, pick *simsvc.Choice) (simsvc.Deep, error) {
+	p, err := h.enter(fctx, "shapes", d, o, pt, kind, span, ratio, iprot, ctx, bins, labels, pick)
+	if err != nil {
+		return nil, err
+	}
+	switch p.outcome {
+	case "ex1":
+		return nil, p.ret.(*simbase.BaseErr)
+	case "ex2":
+		return nil, p.ret.(*simsvc.NotFound)
+	}
+	return p.ret.(simsvc.Deep), nil
+}
 func (h *simHandler) Many(fctx frugal.FContext, n int32) ([]*simsvc.Item, error) {
 	p, err := h.enter(fctx, "many", n)
 	if err != nil {
@@ -563,6 +576,9 @@ func (env *e2eEnv) invoke(p *callPlan) {
 		p.gotRet, p.gotErr = c.Mixed(ctx, p.args[0].(*simsvc.Mixed))
 	case "URLFor":
 		p.gotRet, p.gotErr = c.URLFor(ctx, p.args[0].(string), p.args[1].(int32))
+	case "shapes":
+		a := p.args
+		p.gotRet, p.gotErr = c.Shapes(ctx, a[0].(simsvc.Deep), a[1].(*simsvc.Odd), a[2].(simsvc.Paint), a[3].(int16), a[4].(int8), a[5].(float64), a[6].(string), a[7].(string), a[8].([][]byte), a[9].(map[simsvc.Paint]string), a[10].(*simsvc.Choice))
 	case "many":
 		p.gotRet, p.gotErr = c.Many(ctx, p.args[0].(int32))
 	case "choose":
